@@ -79,11 +79,16 @@ def genRelation (bps nseg : Nat) : Gen (List RelFile) := do
 segment file ("~" = missing) -/
 def segmentsGen (seed idx _size : Nat) : Case :=
   let g : Gen (List RelFile × Nat × Nat × String × List (Int × Int) × List (Int × Int)) := do
-    -- segment size 1..8 blocks (sometimes not a multiple of the block size) or the default
-    let useDefault ← Gen.prob 1 6
-    let bps ← Gen.range 1 8
-    let extra ← if ← Gen.prob 1 5 then Gen.range 1 8191 else pure 0
-    let nseg ← Gen.edgy 1 12
+    -- segment size 1..8 blocks (sometimes not a multiple of the block size) or the default;
+    -- the first 108 cases walk the grid (bps 1..8 and default) × (1..12 segment files)
+    let useDefault0 ← Gen.prob 1 6
+    let bps0 ← Gen.range 1 8
+    let extra0 ← if ← Gen.prob 1 5 then Gen.range 1 8191 else pure 0
+    let nseg0 ← Gen.edgy 1 12
+    let useDefault := if idx < 96 then false else if idx < 108 then true else useDefault0
+    let bps := if idx < 96 then idx % 8 + 1 else bps0
+    let extra := if idx < 108 then 0 else extra0
+    let nseg := if idx < 96 then idx / 8 + 1 else if idx < 108 then idx - 95 else nseg0
     let rel ← genRelation (if useDefault then 8 else bps) nseg
     let segSize := if useDefault then defaultSeg else bps * 8192 + extra
     let optKind ← if useDefault then Gen.oneOf ["nil", "0", "-5"] else pure (toString segSize)
@@ -131,7 +136,7 @@ def segmentsEval (args : List String) : String :=
     segmentsOut fs (parseOpts forced optKind) (parsePairs multi) (parsePairs blk)
   | _ => "bad-args"
 
-def segments : Family := { name := "segments", gen := segmentsGen, eval := segmentsEval, fixed := 0 }
+def segments : Family := { name := "segments", gen := segmentsGen, eval := segmentsEval, fixed := 108 }
 
 /-! ## segpath -/
 
